@@ -303,4 +303,95 @@ def entryImpl2_bbox_stmt : Prop :=
     entryImpl2 suppU suppV ofs (fun q => K (List.zipWith (· + ·) q ofs))
       = entryImpl2 suppU suppV (zeros ofs) K
 
+/-! ### the strictness of the support test is unobservable
+
+The mutation `if intv.a >= intv.b: return` → `if intv.a > intv.b: return` changes nothing: when
+`intv.a == intv.b` the mutated code proceeds with an axis of `g_end - g_sta = 0` nodes, the loop
+nest of `combine` runs zero times and the result is `0`, as after the early return. -/
+
+/-- the header of `entry_impl` with the strict test `intv.a > intv.b` -/
+def gaussRange2Gt : List Intv → List Intv → List Nat → Option (List (Nat × Nat))
+  | su :: sus, sv :: svs, o :: os =>
+      let intv := intersect su sv
+      if intv.a > intv.b then none
+      else (gaussRange2Gt sus svs os).map ((intv.a - o, intv.b - o) :: ·)
+  | _, _, _ => some []
+
+def entryImpl2Gt (suppU suppV : List Intv) (ofs : List Nat) (kernel : List Nat → α) : α :=
+  match gaussRange2Gt suppU suppV ofs with
+  | none => 0
+  | some g => runCombine g kernel
+
+theorem loopNest_eq_nil_of_zero : ∀ (ns : List Nat), 0 ∈ ns → loopNest ns = []
+  | [], h => by simp at h
+  | n :: ns, h => by
+    show (List.range n).flatMap (fun i => (loopNest ns).map (i :: ·)) = []
+    rcases List.mem_cons.1 h with h0 | h0
+    · rw [← h0]; rfl
+    · rw [loopNest_eq_nil_of_zero ns h0]; simp
+
+/-- some axis of the box has no nodes -/
+def HasEmpty (g : List (Nat × Nat)) : Prop := ∃ p ∈ g, p.2 - p.1 = 0
+
+theorem runCombine_hasEmpty (g : List (Nat × Nat)) (K : List Nat → α) (h : HasEmpty g) : runCombine g K = 0 := by
+  unfold runCombine
+  rw [combine_eq_sum, loopNest_eq_nil_of_zero]
+  · simp
+  · obtain ⟨p, hp, h0⟩ := h
+    exact List.mem_map.2 ⟨p, hp, h0⟩
+
+theorem gaussRange2_ge_vs_gt : ∀ (su sv : List Intv) (ofs : List Nat),
+    match gaussRange2 su sv ofs, gaussRange2Gt su sv ofs with
+    | some g, r => r = some g
+    | none, none => True
+    | none, some g' => HasEmpty g'
+  | u :: su, v :: sv, o :: os => by
+    have ih := gaussRange2_ge_vs_gt su sv os
+    simp only [gaussRange2, gaussRange2Gt]
+    by_cases hge : (intersect u v).b ≤ (intersect u v).a
+    · simp only [ge_iff_le, hge, ↓reduceIte, gt_iff_lt]
+      by_cases hgt : (intersect u v).b < (intersect u v).a
+      · simp only [hgt, ↓reduceIte]
+      · simp only [hgt, ↓reduceIte]
+        cases hr : gaussRange2Gt su sv os with
+        | none => simp
+        | some g' =>
+          simp only [Option.map_some]
+          exact ⟨_, List.mem_cons_self, by simp only; omega⟩
+    · have hgt : ¬ (intersect u v).b < (intersect u v).a := by omega
+      simp only [ge_iff_le, hge, ↓reduceIte, gt_iff_lt, hgt]
+      revert ih
+      cases hr : gaussRange2 su sv os with
+      | some g =>
+        intro ih
+        simp only at ih
+        rw [ih]; simp
+      | none =>
+        cases hr' : gaussRange2Gt su sv os with
+        | none => intro _; simp
+        | some g' =>
+          intro ih
+          simp only at ih
+          simp only [Option.map_none, Option.map_some]
+          obtain ⟨p, hp, h0⟩ := ih
+          exact ⟨p, List.mem_cons_of_mem _ hp, h0⟩
+  | [], _, _ => by simp [gaussRange2, gaussRange2Gt]
+  | _ :: _, [], _ => by simp [gaussRange2, gaussRange2Gt]
+  | _ :: _, _ :: _, [] => by simp [gaussRange2, gaussRange2Gt]
+
+/-- the strict and the non-strict support test compute the same entry, for all inputs -/
+theorem entryImpl2Gt_eq (suppU suppV : List Intv) (ofs : List Nat) (K : List Nat → α) :
+    entryImpl2Gt suppU suppV ofs K = entryImpl2 suppU suppV ofs K := by
+  have h := gaussRange2_ge_vs_gt suppU suppV ofs
+  unfold entryImpl2Gt entryImpl2
+  cases h1 : gaussRange2 suppU suppV ofs with
+  | some g => rw [h1] at h; simp only at h; rw [h]
+  | none =>
+    cases h2 : gaussRange2Gt suppU suppV ofs with
+    | none => rfl
+    | some g' =>
+      rw [h1, h2] at h
+      simp only at h
+      exact runCombine_hasEmpty g' K h
+
 end Pyiga.Asm
